@@ -1,5 +1,5 @@
 (* C02 - packet framing: ordered, exactly once, isolated, terminating.  Statements only. *)
-From RU Require Import Base Types Defs BitReader World FrameProofs WorldProofs.
+From RU Require Import Base Types Defs BitReader World Run FrameProofs RunProofs WorldProofs.
 
 (* every packet (payload < 2^32 bytes, any 32-bit type id, any timestamp bits) exactly once, in stream order, with
    exactly its type, timestamp and payload; the stream then ends cleanly *)
@@ -9,16 +9,26 @@ Print Assumptions C02_frames_enc.
 
 (* a header cut after 1..11 bytes: all packets before it are delivered unchanged; play ends (struct.error) *)
 Theorem C02_frames_cut_header : forall ps junk, Forall wf_packet ps -> (0 < length junk < 12)%nat ->
-  frames (enc_all ps ++ junk) = (ps, HeaderCut).
+  frames (enc_all ps ++ junk)%list = (ps, HeaderCut).
 Proof. exact frames_cut_header. Qed.
 Print Assumptions C02_frames_cut_header.
 
 (* the last payload cut short: the packets before it are unchanged and the last one gets the bytes that are there *)
 Theorem C02_frames_cut_payload : forall ps p k, Forall wf_packet ps -> wf_packet p -> (k <= length (pk_payload p))%nat ->
-  frames (enc_all ps ++ enc_header p ++ firstn k (pk_payload p)) =
-  (ps ++ [{| pk_type := pk_type p; pk_time := pk_time p; pk_payload := firstn k (pk_payload p) |}], Clean).
+  frames (enc_all ps ++ enc_header p ++ firstn k (pk_payload p))%list =
+  ((ps ++ [{| pk_type := pk_type p; pk_time := pk_time p; pk_payload := firstn k (pk_payload p) |}])%list, Clean).
 Proof. exact frames_cut_payload. Qed.
 Print Assumptions C02_frames_cut_payload.
+
+(* so playing the byte stream IS playing the packet list: every packet handed to the dialect exactly once, in order *)
+Theorem C02_run_strict_enc : forall St ps, Forall wf_packet ps -> run_strict St (enc_all ps) = play_strict St empty_world ps.
+Proof. exact run_strict_enc. Qed.
+Theorem C02_run_lenient_enc : forall St ps, Forall wf_packet ps -> run_lenient St (enc_all ps) = (play_lenient St empty_world ps, None).
+Proof. exact run_lenient_enc. Qed.
+Theorem C02_run_lenient_cut_header : forall St ps junk, Forall wf_packet ps -> (0 < length junk < 12)%nat ->
+  run_lenient St (enc_all ps ++ junk)%list = (play_lenient St empty_world ps, Some EStruct).
+Proof. exact run_lenient_cut_header. Qed.
+Print Assumptions C02_run_strict_enc.
 
 (* termination: on EVERY byte string the recursion budget (one more than the number of bytes) is never exhausted *)
 Theorem C02_frames_terminate : forall bs, snd (frames bs) <> OutOfFuel.
